@@ -421,6 +421,25 @@ def c01 (v : StepView) : Verdict :=
         l.file.mounts.all fun m => (topAt v.post.mnts (pathJoin [buildDir v.post n, m.mount])).isSome
     -- (chroot mounts only when the layer itself is not reported mounted; then it is a mount)
     if !complete && (c == "mount" || !sys.isEmpty) then viol "mount succeeded but a chain layer lacks a configured mount" else
+    -- … each from its resolved source with the configured type (kernel-level: device and
+    -- directory of the mount, not layercake's own reconstruction)
+    let wrongImports := chain.flatMap fun n =>
+      match findD postLs n with
+      | none => []
+      | some l => l.file.mounts.filterMap fun m =>
+          match topAt v.post.mnts (pathJoin [buildDir v.post n, m.mount]), resolveSource v.post postLs n m.source with
+          | some km, some src => if importAsConfigured v.post km m.fstype src then none else some (km, m.fstype, src)
+          | _, _ => none
+    -- recorded finding (C08 nonbind-import-fstype-not-compared, seen through mount): a mount of
+    -- another file-system type made from the configured source of a non-bind import is taken
+    -- for the import, so mount leaves it in place and reports success
+    let fstypeNotCompared := fun (x : Kernel.KMnt × Bytes × Bytes) =>
+      !(x.2.1 == b!"bind" || x.2.1 == b!"rbind") && x.1.fstype != x.2.1 &&
+        (x.1.source == x.2.2 || showsSource v.post x.1 x.2.2)
+    if !wrongImports.isEmpty && (c == "mount" || !sys.isEmpty) then
+      (if wrongImports.all fstypeNotCompared then
+        known "nonbind-import-fstype-not-compared" "mount succeeded over a mount of another file-system type made from the configured source of a non-bind import"
+       else viol "mount succeeded but an import mountpoint carries a mount from another source or of another type") else
     fine [(if sys.isEmpty then "c01:nothing-to-do" else (if repeated then "c01:repeated" else "c01:mounted"))]
 
 /-! ### C08 -/
@@ -443,19 +462,18 @@ def c08 (v : StepView) : Verdict :=
   | (n, s) :: _ =>
     let st := (spec.find? (·.1 == n)).map (·.2.toNat) |>.getD 0
     let l := findD ls n
-    -- recorded findings
-    let behindNonRoot := match l with
+    -- recorded finding: the code recognises a non-bind import by its source only, so a mount
+    -- of another file-system type that was made from the configured source string, or that
+    -- shows the file system found at the source path, counts as mounted as configured
+    let fstypeNotCompared := match l with
       | some l => l.file.mounts.any fun m =>
-          match resolveSource v.post ls n m.source with
-          | some src => match Kernel.findContaining v.post.mnts src with
-            | some cm => cm.root != [47] && (m.fstype == b!"bind" || m.fstype == b!"rbind")
-            | none => false
-          | none => false
+          !(m.fstype == b!"bind" || m.fstype == b!"rbind") &&
+          match resolveSource v.post ls n m.source, topAt v.post.mnts (pathJoin [buildDir v.post n, m.mount]) with
+          | some src, some km => km.fstype != m.fstype && (km.source == src || showsSource v.post km src)
+          | _, _ => false
       | none => false
-    if s == 1 && st != 1 && behindNonRoot then
-      known "mount-source-behind-nonroot-mount" "a correctly mounted import whose source lies below a bind mount / subvolume (mount root not /) is reported as error"
-    else if s == 5 && st == 6 then
-      known "derived-imports-without-overlay" "a derived layer with imports mounted but no overlay is reported mountable instead of partially mounted"
+    if st == 1 && s != 1 && fstypeNotCompared then
+      known "nonbind-import-fstype-not-compared" "a non-bind import whose mountpoint carries a mount with the configured source but another file-system type is counted as mounted as configured"
     else bad s!"layer {showB n}: reported state {s}, documented classification gives {st}"
 
 /-! ### C16 -/
